@@ -3,11 +3,15 @@
 Definition eqb_obs (a b : list bytes * bytes * Z) : bool :=
   let '(d1, b1, c1) := a in let '(d2, b2, c2) := b in
   eqb_frames d1 d2 && eqb_bytes b1 b2 && (c1 =? c2).
-Definition model_stream (c : Z * Z * list bytes * list bytes * (list bytes * bytes * Z)) : list bytes * bytes * Z :=
-  let '(kind, max, chunks, intended, obs) := c in
+Definition model_stream (c : Z * Z * list bytes * list bytes * (list bytes * bytes * Z) * option (list bytes * bytes * Z)) : list bytes * bytes * Z :=
+  let '(kind, max, chunks, intended, obs, obs2) := c in
   let '(d, b, st) := run max [] chunks in (d, b, status_code st).
+(* obs = decodeData driven over one persistent buffer through the hook;
+   obs2 = the same reads through the REAL readLoop (None: byte-identical to obs) *)
 Definition mism_stream := Eval vm_compute in
-  failing (fun c => let '(_, _, _, _, obs) := c in eqb_obs (model_stream c) obs) cases_stream.
+  failing (fun c => let '(_, _, _, _, obs, obs2) := c in
+           eqb_obs (model_stream c) obs &&
+           match obs2 with None => true | Some o2 => eqb_obs (model_stream c) o2 end) cases_stream.
 Print mism_stream.
 
 Definition conv_code (r : res (bytes * bytes + reason)) : Z :=
@@ -44,3 +48,24 @@ Definition mism_pool := Eval vm_compute in
            | None => false
            end) cases_pool.
 Print mism_pool.
+
+(* large frames (payloads regenerated from their seed) through the real readLoop
+   and through a real ConnectionPool over net.Pipe; frames are compared as
+   (length, fingerprint) *)
+Definition eqb_zz (a b : Z * Z) : bool := (fst a =? fst b) && (snd a =? snd b).
+Definition big_frame (p : Z * Z) : bytes := [84; 83; 84; 65] ++ le_bytes 4 (snd p) ++ gen_bytes (fst p) (snd p).
+Definition len_fp (f : bytes) : Z * Z := (blen f, fingerprint f).
+Definition model_big (c : Z * list (Z * Z) * list (Z * Z) * (list (Z * Z) * Z * Z) * (list (Z * Z) * Z))
+  : list (Z * Z) * Z * Z :=
+  let '(max, specs, lens, obs, pobs) := c in
+  let stream := concat_tr (map (fun p => enc_frame (big_frame p)) specs) in
+  let '(d, b, st) := run max [] (split_by (expand_rle lens) stream) in
+  (map len_fp d, blen b, status_code st).
+Definition mism_big := Eval vm_compute in
+  failing (fun c => let '(_, _, _, obs, pobs) := c in
+           let '(d, bl, code) := model_big c in
+           let '(od, obl, ocode) := obs in
+           eqb_list eqb_zz d od && (bl =? obl) && (code =? ocode)
+           (* every frame is a registered message whose decoder uses the whole body: the pool handles what readLoop delivers *)
+           && eqb_list eqb_zz d (fst pobs) && (code =? snd pobs)) cases_big.
+Print mism_big.
